@@ -23,3 +23,8 @@ TEXT['C11'] = dict(
    technique='Coq proof: refinement of the two-key lazy-deletion store to a reference table over all histories, table invariants, search soundness/completeness; differential correspondence on exhaustive small-scope and random API histories under a virtual clock',
    level='Theorems in coq/Properties/C11.v hold for every history of database operations of any length, every non-decreasing clock, every candidate order, probe outcome/duration and cancellation point: the concrete store (two map keys per binding, lazy deletion, pointer comparison) returns exactly what the reference table returns; the table has at most one live binding per address and per client in every reachable state; an update succeeds iff it extends the own binding or creates one where both are free; expired entries are invisible, permanent ones persist; the search returns the own address, else the eligible suggestion, else an eligible range address, and fails only if none is eligible/disabled/cancelled. Tie to lib/server/ipdb: all 21 952 operation sequences of length 3 over a 28-operation alphabet plus random histories run on the real API inside testing/synctest each quick run.',
    note='Trusted: Coq kernel, extraction, driver, harness, hand-written model of ipdb/clients; the mutex makes each API call atomic (gofacts fact); rand.Perm order is validated not predicted.')
+
+TEXT['C17'] = dict(
+   technique='Coq proof over a hand-written model of envEntry/dumpScriptConf (with Go\'s rune-wise regexp replacement) and of resolvconf.Run (scan, anchored classes, rendering): character-set theorem, file grammar (inductive grammar = boolean recogniser), render = functional specification, composition; differential correspondence against the library, a real child process and the real binary in a chroot; specification recognisers evaluated on every implementation output',
+   level='Theorems in coq/Properties/C17.v hold for every key and every byte string of any length (any byte values, any UTF-8 damage): every byte of envEntry(k, v) after "PSA_DHCPC_k=" is a letter, digit, comma, dot, hyphen or underscore; dumpScriptConf yields exactly the seven variables with such values for every interface configuration; for every environment (any number of entries, duplicates, entries without "=") the buffer resolvconf.Run writes is header, at most one "search" line with one non-empty hostname-character token, then "nameserver" lines with one non-empty [0-9.] token each, at least one of them, and nothing is written exactly when the environment supplies no valid name-server token; the written file equals an independently stated function of the environment; the composition Ifconfig -> environment -> file has that shape for all contents. Tie to the code each run: the library functions on all byte values and UTF-8 boundary cases, 50 real child processes through Cbhandler, and the real psa-dhcpc -syshook binary in a chroot on 173 environment blocks (quick).',
+   note='Trusted: Coq kernel, extraction, driver, harness, hand-written models, gofacts for the literals; Go regexp/utf8/os.Environ semantics as modelled. dclient.buildNetconfig is not executed (the theorems quantify over every Ifconfig content); update() (atomic replace) is C20.')
